@@ -728,6 +728,12 @@ int rtosc::canonicalize_arg_vals(rtosc_arg_val_t* av, size_t n,
                     av->val.i = val;
                 }
             }
+            else if(av->type == 'i' && *first == 'c')
+            {
+                // a char port's value may be written as a number
+                // (rDefault(64) of an rParam port)
+                av->type = 'c';
+            }
         }
     }
     if(is_array && arr_size)
